@@ -4,18 +4,26 @@ Monitored: mn.asm(instr) for every instruction obtained from mn.dis on the share
 (x86 16/32/64, ARM, Thumb, AArch64, MIPS32, PPC32, MSP430, MeP, SH4; every byte order), then
 mn.dis on each proposed encoding.  Oracle: the statement itself -- at least one candidate; each
 candidate decodes; same mnemonic, mode and operand expressions; decoded length == len(candidate).
+Boundary-directed immediates (deterministic part): for the all-zeros / all-ones instance of every
+table class, each immediate (integer operand, absolute address, displacement) is replaced in turn
+by 0, 1, 2^(k-1)-1, 2^(k-1), 2^k-1, 2^k (k = 8, 16, 32) and the sign-extension boundaries of the
+operand size; a variant counts as "obtained by decoding" once one proposed encoding decodes back to
+exactly it, and then every other proposed encoding must as well.
 """
 from vf.models import insn_roundtrip as rt
 
 CHECK = dict(
     id="C15", level="exploration",
     rule=("16-byte candidates from the shared instruction corpus: a seed-independent walk over every class of "
-          "each decoder table (fixed prefix classes x ModRM forms on x86) plus seed-dependent random bytes, stratified opcode "
+          "each decoder table (fixed prefix classes x ModRM forms on x86, boundary values of every free field) plus a "
+          "seed-dependent stream -- VERIF_SEED selects one of 21 (quick) / 4 (thorough) swept streams, seed mod N -- of random bytes, stratified opcode "
           "enumeration, decoder-table templates with random free fields, curated vectors of test/arch "
           "with bit flips) decoded by mn.dis in every arch/mode; each decoded instruction is given to "
-          "mn.asm and every proposed encoding is decoded again; distinct = distinct (arch/mode, "
+          "mn.asm and every proposed encoding is decoded again; boundary-valued immediates are substituted into "
+          "one instance of every table class and checked the same way; distinct = distinct (arch/mode, "
           "mnemonic, operand kinds); non-trivial = the decoder accepted the bytes"),
-    assumptions=["instruction equality = same name, mode and operand expressions (Expr equality); "
+    assumptions=["the seed-dependent part is drawn from a closed set of streams (VERIF_SEED mod 21 quick, mod 4 thorough); other seeds repeat a stream",
+                 "instruction equality = same name, mode and operand expressions (Expr equality); "
                  "prefix flags that are not operands (LOCK/REP) are not compared",
                  "PC-relative operands are compared as the integers the decoder produced at offset 0"],
     timeout={"quick": 900, "thorough": 3400},
@@ -27,7 +35,7 @@ WALK = {"quick": (1, 1), "thorough": (2, 1)}      # table walk: (rounds, stride)
 
 
 def shards(tier, seed, scale):
-    return rt.shards(tier, seed, scale, PER_ARCH, WALK)
+    return rt.shards(tier, seed, scale, PER_ARCH, WALK, "C15")
 
 
 def run_shard(params, rec):
